@@ -105,6 +105,16 @@ class Extractor:
                 arms.append({"pat": a["pat"], "guard": a.get("guard"), "body": body})
             if all(is_trivial(a["body"]) for a in arms):
                 return pre
+            # `match opt { Some(p) => A, None | _ => B }` is `if let Some(p) = opt { A } else { B }`
+            if len(arms) == 2 and not any(a.get("guard") for a in arms):
+                def is_some(p):
+                    return p.get("k") == "tuplestruct" and (p.get("def") or "").endswith("Option::Some")
+
+                def is_none(p):
+                    return p.get("k") == "wild" or (p.get("k") in ("path", "expr") and (p.get("def") or hirq.pat_str(p) or "").endswith("None"))
+                for i in (0, 1):
+                    if is_some(arms[i]["pat"]) and is_none(arms[1 - i]["pat"]):
+                        return pre + [{"n": "iflet", "pat": arms[i]["pat"], "scrut": n["scrut"], "then": arms[i]["body"], "else": arms[1 - i]["body"], "line": n.get("line")}]
             return pre + [{"n": "match", "scrut": n["scrut"], "arms": arms, "line": n.get("line")}]
         if k == "for":
             pre = self.expr(n["iter"], env)
